@@ -97,7 +97,12 @@ def apply(I, st, inst, node, nidx, callee, args, term, dty, line):
     if path == "core::mem::align_of":
         return Poly.atom(("ALIGNOF", ty_str(garg(I, inst, callee, 0))))
     if path == "core::mem::needs_drop":
-        return ("needs_drop", ty_str(garg(I, inst, callee, 0)))
+        t = ty_str(garg(I, inst, callee, 0))
+        if I.type_tests.get(t) is True or t == "any_value::Unknown":
+            # in the type-erased arm the type IS the marker `Unknown` (a unit struct without drop glue): `needs_drop::<Unknown>()` is false there,
+            # so a test of it says nothing about the elements (whose destructor is the run-time drop_fn)
+            return ("bconst", 0)
+        return ("needs_drop", t)
     if path == "core::any::TypeId::of":
         return ("TYPEID", ty_str(garg(I, inst, callee, 0)))
     if path == "core::alloc::Layout::new":
@@ -175,6 +180,9 @@ def apply(I, st, inst, node, nidx, callee, args, term, dty, line):
         return args[0]
     if trait == "core::iter::IntoIterator" and name == "into_iter":
         return args[0]
+    if path in ("core::ptr::const_ptr::<impl *const T>::cast_mut", "core::ptr::mut_ptr::<impl *mut T>::cast_const",
+                "core::ptr::const_ptr::<impl *const T>::cast_const", "core::ptr::mut_ptr::<impl *mut T>::cast_mut"):
+        return args[0]      # same address, same pointee type: only the mutability of the raw pointer type changes
     if path in ("core::ptr::const_ptr::<impl *const T>::cast", "core::ptr::mut_ptr::<impl *mut T>::cast"):
         v = args[0]
         to = ty_str(garg(I, inst, callee, 1))
@@ -400,7 +408,8 @@ def apply(I, st, inst, node, nidx, callee, args, term, dty, line):
         cp = canon_path(I, st, p) if p else h(args[0])
         sty = callee.get("self_ty", {})
         E("USER", what="iter-" + name, target=cp, self_ty=ty_str(I.tcx.subst(sty, inst.subst)) if sty else "?", forwards=name)
-        return I.wrap(("user" + name, cp, I.ver_of(st, p) if p else 0), dty)
+        # user code: two calls need not return the same value, so every call site yields its own value
+        return I.wrap(("user" + name, cp, I.ver_of(st, p) if p else 0, site), dty)
     if trait == "core::iter::Iterator" and name in ("map", "rev", "take", "by_ref", "enumerate"):
         return ("iteradapt", name, h(args))
 
